@@ -210,7 +210,15 @@ theorem step_forLoop {bad : Res} {f m f' m' : Nat} (hbad : Passed bad) (ih : All
   unfold forLoop
   split
   · exact Rel.rfl' _
-  · exact rel_loop hbad (ih.one (pushS s (.int v)) p true) (fun s1 => ih.forL s1 _ i l p)
+  · exact rel_loop hbad (next := fun s1 => if i > 0 ∧ v > maxInt64 - i ∨ i < 0 ∧ v < minInt64 - i then okS s1
+        else forLoop f m s1 (wrap64 (v + i)) i l p)
+      (next' := fun s1 => if i > 0 ∧ v > maxInt64 - i ∨ i < 0 ∧ v < minInt64 - i then okS s1
+        else forLoop f' m' s1 (wrap64 (v + i)) i l p)
+      (ih.one (pushS s (.int v)) p true)
+      (fun s1 => by
+        split
+        · exact Rel.rfl' _
+        · exact ih.forL s1 _ i l p)
 
 theorem step_repeatLoop {bad : Res} {f m f' m' : Nat} (hbad : Passed bad) (ih : AllRel bad f m f' m')
     (s : State) (k : Nat) (p : Obj) :
